@@ -101,6 +101,22 @@ Theorem C25_certificate_sound :
 Proof. exact conform_sound. Qed.
 Print Assumptions C25_certificate_sound.
 
+(* The md-grid against what was REQUESTED: acceptance of the extended certificate also
+   gives that every fracture grid (in 3-D with two rectangles also the intersection-line
+   grids together) has the measure of the requested fracture, the host grid spans exactly
+   the requested domain box on every axis, and there is one fracture grid per requested
+   fracture (all within 1e-9). *)
+Theorem C25_certificate_request_sound :
+  forall d r, conform_req d r = true -> Conforming d /\ RequestConf r.
+Proof. exact conform_req_sound. Qed.
+Print Assumptions C25_certificate_request_sound.
+
+Example C25_nonvacuous_request :
+  request_ok (mkREQ [([1 # 2; 1 # 2; 1], 2)] [(0, 4); (-1, 3)] [(0, 4); (-1, 3)] 1 1) = true /\
+  request_ok (mkREQ [([1 # 2; 1 # 2], 2)] [(0, 4); (-1, 3)] [(0, 4); (-1, 3)] 1 1) = false /\
+  request_ok (mkREQ [] [(0, 3)] [(1, 3)] 0 0) = false.
+Proof. vm_compute. repeat split; reflexivity. Qed.
+
 (* Non-vacuity: a host of two cells [0,1], [1,2] with faces at 0, 1, 2; the lower cell 0
    sits on face 1.  The split gives face 3 = copy of 1 attached to the left cell 0, face 1
    keeps the right cell 1, frac_pairs (1,3), face-cell map {(0,1),(0,3)}; and a matching
